@@ -30,6 +30,7 @@ struct ModelGame {
     /// occurrences keyed by placement and side to move only (look-alikes that differ in rights / e.p.)
     occ_look: HashMap<Vec<u8>, u32>,
     clock: u32,
+    max_clock: u32,
     /// half-move index (in moves) at which castling rights last changed
     last_rights_change: Option<u32>,
     nmoves: u32,
@@ -45,7 +46,7 @@ fn key(p: &RPos, ep: bool) -> Vec<u8> {
 
 impl ModelGame {
     fn new(start: &RPos) -> ModelGame {
-        let mut g = ModelGame { start: start.clone(), cur: start.clone(), log: vec![], occ_fide: HashMap::new(), occ_lib: HashMap::new(), occ_look: HashMap::new(), clock: 0, last_rights_change: None, nmoves: 0 };
+        let mut g = ModelGame { start: start.clone(), cur: start.clone(), log: vec![], occ_fide: HashMap::new(), occ_lib: HashMap::new(), occ_look: HashMap::new(), clock: 0, max_clock: 0, last_rights_change: None, nmoves: 0 };
         g.note_position();
         g
     }
@@ -86,6 +87,7 @@ impl ModelGame {
         } else {
             self.clock += 1;
         }
+        self.max_clock = self.max_clock.max(self.clock);
         if self.cur.castle != before {
             self.last_rights_change = Some(self.nmoves);
         }
@@ -325,7 +327,7 @@ fn choose_move(rng: &mut Rng, m: &ModelGame, legal: &[RMove], pol: Policy) -> RM
 }
 
 impl GameMon {
-    pub fn play(&self, start: &RPos, pol: Policy2, max_actions: usize, rng: &mut Rng, rep: &mut Report) {
+    pub fn play(&self, start: &RPos, pol: Policy2, max_actions: usize, rng: &mut Rng, rep: &mut Report) -> u32 {
         let mut prelude: Vec<RMove> = vec![];
         let pol = match pol {
             Policy2::SeekAfterPrelude(pre) => {
@@ -335,6 +337,10 @@ impl GameMon {
             Policy2::RandomAfterPrelude(pre) => {
                 prelude = pre;
                 Policy::Random
+            }
+            Policy2::AvoidAfterPrelude(pre) => {
+                prelude = pre;
+                Policy::Avoid
             }
             Policy2::Random => Policy::Random,
             Policy2::Seek => Policy::Seek,
@@ -349,7 +355,7 @@ impl GameMon {
                 Ok(g) => g,
                 Err(_) => {
                     rep.count("setup_rejected");
-                    return;
+                    return 0;
                 }
             }
         } else {
@@ -357,7 +363,7 @@ impl GameMon {
                 Ok(b) => Game::new_with_board(b),
                 Err(_) => {
                     rep.count("setup_rejected");
-                    return;
+                    return 0;
                 }
             }
         };
@@ -506,6 +512,7 @@ impl GameMon {
             let s = run.full_trace();
             rep.sample(if s.len() > 700 { format!("{}...", &s[..700]) } else { s });
         }
+        run.m.max_clock
     }
 
     fn try_move(&self, run: &mut Run, m: RMove, rho: Option<GameResult>, legal: &[RMove], rep: &mut Report) {
@@ -656,6 +663,8 @@ pub enum Policy2 {
     /// play the given moves first, then seek repetitions
     SeekAfterPrelude(Vec<RMove>),
     RandomAfterPrelude(Vec<RMove>),
+    /// play the given moves first, then avoid repetitions and irreversible moves (fifty-move window)
+    AvoidAfterPrelude(Vec<RMove>),
 }
 
 pub fn run_game(ctx: &Ctx, rep: &mut Report, c10: bool, c11: bool) {
@@ -789,6 +798,47 @@ pub fn run_game(ctx: &Ctx, rep: &mut Report, c10: bool, c11: bool) {
                 }
             }
             rep.count("ev_long_log_games");
+        });
+    }
+    // directed: the fifty-move window opened by each *kind* of irreversible move (en-passant capture,
+    // capture by a piece, promotion with and without capture, single and double pawn step), and castling
+    // inside the window (which is neither a pawn move nor a capture and must not restart the count)
+    if c11 && !miri {
+        ctx.cases(rep, "fifty-break-kinds", 2, |_g, rng, rep| {
+            let mv = |a: &str, b: &str, promo: u8| {
+                let sq = |t: &str| (t.as_bytes()[0] - b'a') + 8 * (t.as_bytes()[1] - b'1');
+                RMove::new(sq(a), sq(b), promo)
+            };
+            let kinds: Vec<(&str, &str, Vec<RMove>)> = vec![
+                ("ep_capture", "1n2k3/3p4/8/4P3/8/8/8/4K1N1 b - - 0 1", vec![mv("d7", "d5", 0), mv("e5", "d6", 0)]),
+                ("ep_capture", "1n2k3/5p2/8/4P3/8/8/8/4K1N1 b - - 0 1", vec![mv("f7", "f5", 0), mv("e5", "f6", 0)]),
+                ("ep_capture", "1n2k3/p7/8/1P6/8/8/8/4K1N1 b - - 0 1", vec![mv("a7", "a5", 0), mv("b5", "a6", 0)]),
+                ("piece_capture", "1n2k3/8/8/3p4/8/4N3/8/4K3 w - - 0 1", vec![mv("e3", "d5", 0)]),
+                ("king_capture", "1n2k3/8/8/8/8/8/3p4/4K1N1 w - - 0 1", vec![mv("e1", "d2", 0)]),
+                ("promotion_capture", "1n1rk3/2P5/8/8/8/8/8/4K1N1 w - - 0 1", vec![mv("c7", "d8", N)]),
+                ("promotion", "1n2k3/P7/8/8/8/8/8/4K1N1 w - - 0 1", vec![mv("a7", "a8", N)]),
+                ("double_step", "1n2k3/8/8/8/8/8/7P/4K1N1 w - - 0 1", vec![mv("h2", "h4", 0)]),
+                ("single_step", "1n2k3/8/8/8/8/8/7P/4K1N1 w - - 0 1", vec![mv("h2", "h3", 0)]),
+                ("castling_inside_window", "1n2k3/8/8/8/8/8/4P3/R3K1N1 w Q - 0 1", vec![mv("e2", "e3", 0), mv("b8", "c6", 0), mv("g1", "f3", 0), mv("c6", "b4", 0), mv("e1", "c1", 0)]),
+                ("castling_inside_window", "1n2k2r/4p3/8/8/8/8/8/4K1N1 b k - 0 1", vec![mv("e7", "e6", 0), mv("g1", "f3", 0), mv("b8", "c6", 0), mv("f3", "d4", 0), mv("e8", "g8", 0)]),
+            ];
+            for (name, fen, prelude) in kinds.into_iter() {
+                let p = RPos::from_fen(fen).unwrap();
+                let (p, prelude) = if rng.chance(1, 2) {
+                    (p, prelude)
+                } else {
+                    (p.mirror_v(), prelude.into_iter().map(|m| RMove::new(vflip(m.from), vflip(m.to), m.promo)).collect())
+                };
+                let mut q = p.clone();
+                for m in prelude.iter() {
+                    assert!(q.is_legal(*m), "harness: prelude of break kind {} is not legal", name);
+                    q = q.make(*m);
+                }
+                rep.count(&format!("ev_fifty_window_after_{}", name));
+                if mon.play(&p, Policy2::AvoidAfterPrelude(prelude), 240, rng, rep) >= 100 {
+                    rep.count(&format!("ev_fifty_boundary_crossed_after_{}", name));
+                }
+            }
         });
     }
     // directed: the fifty-move boundary with and without a castling-rights loss inside the window
